@@ -24,7 +24,7 @@ func (s *Spec) maxDepth() int {
 
 // inheritFromReference resolves attributes declared by name only in a type that has a Reference:
 // type, validations and default value are those of the attribute of the same name of the
-// referenced type. Required lists are not inherited through Reference.
+// referenced type (AllAttrs adds the referenced type's required names for those attributes).
 func (s *Spec) inheritFromReference(td *TypeDef, attrs []*Attr) []*Attr {
 	base := s.TypeDefByName(td.Reference)
 	if base == nil {
